@@ -40,6 +40,7 @@ func c16(tier string) []*explore.Scenario {
 	for _, dial := range []string{"fails", "succeeds", "pending"} {
 		out = append(out, c17AttachDuringDial("C16", dial, bound))
 	}
+	out = append(out, c16DialBacklog(3, bound+1), c16DialBacklog(5, bound))
 	out = append(out, c17OpSeqs("C16", tier)...)
 	out = append(out, c16RPC("payloads", true, 0))
 	out = append(out, c16Burst(12, 0), c16Burst(50, 0), c16Burst(24, 1))
@@ -329,4 +330,48 @@ func uniq(l []string) []string {
 		}
 	}
 	return out
+}
+
+// c16DialBacklog: n envelopes for a destination that is being dialled queue
+// up behind the dial; once it completes they are delivered exactly once, in
+// order, followed by one more sent afterwards.
+func c16DialBacklog(n, bound int) *explore.Scenario {
+	fam := "C16/dial-backlog"
+	return &explore.Scenario{
+		Name: fmt.Sprintf("C16/dial-backlog/n=%d/d=%d", n, bound), Family: fam, Prop: "C16", Bound: bound,
+		Run: func() {
+			t, peers := c17Env(16)
+			release := make(chan struct{})
+			t.SlowDial = map[string]chan struct{}{"c": release}
+			pc := env.NewPipe(t.Tap, env.PipeOpts{Name: "c", Cap: 16})
+			t.Extra["c"] = pc
+			vsched.Settle()
+			for i := 0; i < n; i++ {
+				peers["a"].A.Inject(c17Msg(uint64(200+i), "a", "c"))
+			}
+			vsched.Quiesce()
+			vsched.Explore(true)
+			close(release)
+			vsched.Quiesce()
+			peers["a"].A.Inject(c17Msg(uint64(200+n), "a", "c"))
+			vsched.Quiesce()
+			var got []uint64
+			for _, e := range t.Tap.Events {
+				if e.Wire == "c" && e.Rpc.GetHeader().GetSource() == "a" {
+					got = append(got, e.Rpc.GetId())
+				}
+			}
+			var want []uint64
+			for i := 0; i <= n; i++ {
+				want = append(want, uint64(200+i))
+			}
+			vsched.Obs("delivered %v dialed=%v", got, t.Dialed)
+			if fmt.Sprint(got) != fmt.Sprint(want) {
+				vsched.Fail(fam+"|order", "%d envelopes a->c queued while c was being dialled, one more afterwards: c received %v, want %v", n, got, want)
+			}
+			if countStr(t.Dialed, "c") != 1 {
+				vsched.Fail(fam+"|dial-count", "c was dialled %d times", countStr(t.Dialed, "c"))
+			}
+		},
+	}
 }
